@@ -26,10 +26,20 @@ ASSUMPTIONS = OutHost.CONTRACT + [
     "a transfer ends with an accepted packet shorter than max_packet_size, including a zero-length packet "
     "(USB 2.0 5.8.3); the byte after it starts a transfer",
 ]
-BOUNDS = "BMC from reset; configurations (mps, buffer) = (2,3) [the class default buffer 2*mps-1], (2,2), (3,5) " \
+BOUNDS = "BMC from reset; configurations (mps, buffer) = (2,3) [the class default buffer 2*mps-1] quick; (2,2), (3,5) " \
          "thorough; all host/consumer schedules and data up to K cycles (quick 20, thorough 24 [22 for mps 3]; the payload-equality assertion 2 less; 3 transactions; restricted best-effort layer to 30)"
 OUTSIDE = "histories longer than K cycles; packets longer than max_packet_size; DATA2/MDATA pids; " \
           "clear-halt during traffic (C14); byte-level framing/CRC (C02 provides the interface contract)"
+
+# FINDINGS (genuine defects found by this check on the original tree, fixed in /repo):
+#   "fix: a bulk OUT packet that overflowed the buffer is NAKed, not ACKed"
+#       the overflow flag was cleared at the packet's commit/discard (2 cycles after rx_complete) but the handshake is
+#       decided at rx_ready_for_response (10 cycles after it at full speed, 60 MHz): the discarded packet was ACKed and
+#       the data toggle advanced.  Caught by: lost, ping_ack_noroom (response gap >= 3 cycles, K <= 18).
+#   "fix: only an accepted bulk OUT packet starts, continues or ends a transfer"
+#       transfer_active was updated speculatively while a packet streamed in and never by a zero-length packet: a
+#       corrupted/NAKed full-size packet, or full packet + ZLP, left the next transfer's first byte without `first`.
+#       Caught by: first_mark (K <= 20).
 
 EP = 1
 
@@ -200,25 +210,39 @@ class BulkOutHarness(Harness):
         return m
 
 
+# assertion families (one solver process each in the quick tier)
+FAM_HANDSHAKE = ["resp_one", "repeat_ack", "nak_unjustified", "ping_one", "ping_ack_noroom", "ping_nak_room",
+                 "hs_unasked"]
+FAM_STREAM = ["first_mark", "last_mark", "phantom", "lost"]
+
+
 def queries(tier):
     qs = []
     quick = tier == "quick"
-    cfgs = [("m2b3", 2, 3), ("m2b2", 2, 2)] if quick else [("m2b3", 2, 3), ("m2b2", 2, 2), ("m3b5", 3, 5)]
+    cfgs = [("m2b3", 2, 3)] if quick else [("m2b3", 2, 3), ("m2b2", 2, 2), ("m3b5", 3, 5)]
     for tag, mps, buf in cfgs:
         f = (lambda mps=mps, buf=buf: BulkOutHarness(mps, buf))
         K = 20 if quick else (24 if mps == 2 else 22)
-        others = [a for a in BulkOutHarness(mps, buf)._viols if a != "data"]
-        qs.append(Query(f"bmc_{tag}", f, K, timeout=900, asserts=others,
-                        desc=f"mps={mps} buffer={buf}: host schedule, data, consumer ready all free"))
-        # the payload comparison through the FIFO memory is the expensive assertion: two steps shallower
-        qs.append(Query(f"bmc_data_{tag}", f, K - 2, timeout=900, asserts=["data"], covers=[],
-                        desc=f"mps={mps} buffer={buf}: tracked-element payload equality, everything free"))
-        if not quick:
+        d = f"mps={mps} buffer={buf}: host schedule, data, consumer ready all free"
+        if quick:
+            qs.append(Query(f"bmc_handshake_{tag}", f, K, timeout=600, asserts=FAM_HANDSHAKE, covers=[], split=False,
+                            desc=d + " -- ACK/NAK/PING family"))
+            qs.append(Query(f"bmc_stream_{tag}", f, K, timeout=600, asserts=FAM_STREAM, split=False,
+                            desc=d + " -- delivery / first / last family + all covers"))
+            # the payload comparison through the FIFO memory is the expensive assertion: two steps shallower
+            qs.append(Query(f"bmc_data_{tag}", f, K - 2, timeout=600, asserts=["data"], covers=[], split=False,
+                            desc=d + " -- tracked-element payload equality"))
+        else:
+            qs.append(Query(f"bmc_{tag}", f, K, timeout=900, asserts=FAM_HANDSHAKE + FAM_STREAM, desc=d))
+            # required part of the payload equality at the depth that closed under load; the deeper one is best effort
+            qs.append(Query(f"bmc_data_{tag}", f, K - 4, timeout=900, asserts=["data"], covers=[],
+                            desc=d + " -- tracked-element payload equality"))
+            qs.append(Query(f"bmc_data_deep_{tag}", f, K, timeout=900, asserts=["data"], covers=[], required=False,
+                            desc=d + " -- tracked-element payload equality, best effort (timed out at 900 s under load)"))
             # deeper restricted layer: consumer always ready, responses exactly one cycle after rx_complete (HS timing)
-            qs.append(Query(f"bmc_hs_ready_{tag}", f, 30, timeout=600, asserts=others, covers=[], required=False,
-                            layer={"ready": 1, "resp_go": 1, "tok_rfr_go": 1},
+            qs.append(Query(f"bmc_hs_ready_{tag}", f, 30, timeout=600, asserts=FAM_HANDSHAKE + FAM_STREAM, covers=[],
+                            required=False, layer={"ready": 1, "resp_go": 1, "tok_rfr_go": 1},
                             desc=f"mps={mps} buffer={buf}: restricted layer -- consumer always ready, response strobes "
                                  "at the earliest cycle (high-speed timing); best effort"))
-        if tag == "m2b3" or not quick:
-            qs.append(Query(f"cosim_{tag}", f, 0, kind="cosim", cosim_cycles=100 if quick else 600))
+        qs.append(Query(f"cosim_{tag}", f, 0, kind="cosim", cosim_cycles=100 if quick else 600))
     return qs
